@@ -284,7 +284,11 @@ func (c *Ctx) WriteEvidence(level, rule string, cov *Cov, assumptions []string, 
 	}
 	dir := filepath.Join(VerifDir(), "evidence")
 	os.MkdirAll(dir, 0o755)
-	return os.WriteFile(filepath.Join(dir, c.ID+".json"), b, 0o644)
+	name := c.ID + ".json"
+	if c.Replay != "" {
+		name = c.ID + ".replay.json" // a replay of one stored scenario does not replace the evidence of the last full run
+	}
+	return os.WriteFile(filepath.Join(dir, name), b, 0o644)
 }
 
 // Inconclusive is returned by a property function when the machinery itself failed.
